@@ -1,7 +1,7 @@
 /-
 Proof/YamlBlockScalar — layer 3 of `render_load` (C14): literal and folded block scalars.
 -/
-import SuccinctlyVerif.Proof.YamlBlock
+import SuccinctlyVerif.Proof.YamlRefBlock
 namespace SV.YamlRef
 
 /-! ## Layer 3: block scalars — text lemmas -/
